@@ -18,8 +18,6 @@ def gen_graph_plan(rng, opts=None):
 
 def _nout(rng, o):
     n = rng.choice(NOUTS)
-    if o["sorted_only"] and n > 10 and o.get("_fluent"):
-        n = rng.choice([2, 3, 7, 10])
     if n > 4 and rng.randrange(100) >= o["big_pct"]:
         n = rng.choice([1, 2, 3])
     return n
